@@ -126,3 +126,23 @@ claim("C12", "Lean 4 proofs of sound instantiation (n-ary inverse), exact propos
       "tables drawn around an interpretation that satisfies the quantified formulae, quantifier data through add_data, infer() and node-level "
       "downward calls; the interpretation must stay inside every fact, no contradiction; tables compared with the model.",
       NOTE_COMMON + " The reading is closed over the instances PRESENT (complete tables in the oracle).", "DESIGN.md §6 C12")
+claim("C09", "Lean 4 proof of join completeness (the folded pandas outer join contains the natural join) and presence after upward + systematic variable-pattern differential oracle",
+      "Theorems C09_foj_complete / C09_foldJoin_complete (every assignment whose projection is a row of every operand relation is a row of the folded "
+      "_full_outer_join, whose columns are the union), C09_join_complete / C09_join_aligned / C09_homogeneous_complete (the model's grounding "
+      "management returns the operator grounding of every such assignment, aligned with the projected operand groundings, and creates its row; union "
+      "propagation in the homogeneous branch), C09_upward_present(_homogeneous) / C09_upward_keeps_rows / C09_operands_kept (present after upward, "
+      "nothing ever removed). The value clause (bounds = truth function of the facts, downward at least as tight as the inverse) is the soundness/"
+      "closed-form content of C02/C03 and is judged by the oracle. Tied to /repo: all variable-sharing patterns of two (and sampled / all three) "
+      "operands of arity 1-2 incl. permuted arguments, random fact tables; the natural join is computed independently; presence, exact upward "
+      "value, downward tightening and untouched independent rows are checked; tables compared with the model.",
+      NOTE_COMMON, "DESIGN.md §6 C09")
+claim("C10", "Lean 4 proofs that the model is a function of the SET of facts/rows (finite-map denotation, permutation invariance of every table operation, join and upward step) + multi-hash-seed differential runs",
+      "Theorems C10_perm_TEq / C10_addg_perm / C10_addg_set / C10_addData_comm / C10_load_perm (tables denote finite maps; creation order and the order "
+      "of facts in a data dict are irrelevant), C10_mergeB_comm_assoc / C10_mergeAll_perm / C10_writeMerged_perm (the duplicate merge is order-free), "
+      "C10_foj_congr / C10_foldJoin_congr (the join's row SET depends only on the inputs' row sets), C10_groundings_congr / C10_fUpConn_congr / "
+      "C10_fUpNot_congr / C10_fDownNot_congr (whole engine steps map equal finite maps to equal finite maps and equal amounts). Tied to /repo: every "
+      "program is executed in a separate interpreter per PYTHONHASHSEED (quick 3, thorough 16) with its own shuffled fact order; all canonical "
+      "dumps must coincide and equal the order-free model.",
+      NOTE_COMMON + " Not covered by theorems: CPython's hash function / set and dict iteration order and pandas row order themselves (not modelled; "
+      "a seed-dependent fault that needs a seed outside those tried is not found); no map-congruence theorem for fDownConn, quantifiers and fInfer as "
+      "a whole (ingredients proved).", "DESIGN.md §6 C10")
